@@ -289,6 +289,23 @@ class CFG:
                     st.append(y)
         return seen
 
+    def reach_from_sensitive(self, start_blocks, avoid_blocks=frozenset()):
+        """Like reach_from, but pruning edges that contradict values known along the path (see must_pass)."""
+        ctx = getattr(self, "_ctx", None)
+        if ctx is None:
+            return self.reach_from(start_blocks, avoid_blocks=avoid_blocks)
+        from .guards import Walker
+        w = self.__dict__.get("_walker")
+        if w is None:
+            w = Walker(ctx, self.fn, [])
+            self.__dict__["_walker"] = w
+        out = set()
+        for s0 in start_blocks:
+            if s0 in avoid_blocks:
+                continue
+            out |= w.reachable({}, s0, frozenset(avoid_blocks), frozenset())
+        return out
+
     def returns(self):
         return [i for i, b in enumerate(self.fn.blocks) if b["t"]["k"] == "return" and self.reachable[i]]
 
